@@ -458,6 +458,22 @@ def bounded_writers(ctx, b):
             except parsers.FormatError as ex:
                 ok, detail = False, {"writer": name, "spans": spans, "format_error": str(ex)}
             b.case((name, tuple(spans)), ok, detail, sample={"writer": name, "spans": spans, "output": out[:300]})
+    # SAMI, two languages: the end of a non-primary cue that falls on a millisecond where the primary language already
+    # has a sync is conveyed all the same (a blank paragraph of ITS language in that sync)
+    for en_spans, fr_spans in [([(1000000, 2000000), (4000000, 5000000)], [(500000, 4000000), (6000000, 7000000)]),
+                               ([(1000000, 3000000), (3000000, 5000000), (8000000, 9000000)], [(2000000, 3000000), (6000000, 8000000)]),
+                               ([(0, 1000000), (5000000, 6000000)], [(250000, 5000000)])]:
+        def sami_two(en_spans=en_spans, fr_spans=fr_spans):
+            cs = CaptionSet({"en-US": CaptionList([Caption(s_, e_, [T(f"en {j}")]) for j, (s_, e_) in enumerate(en_spans)]),
+                             "fr-FR": CaptionList([Caption(s_, e_, [T(f"fr {j}")]) for j, (s_, e_) in enumerate(fr_spans)])})
+            d = parsers.parse_sami(writers["sami"].write(cs))
+            for lang, spans in (("en-US", en_spans), ("fr-FR", fr_spans)):
+                got = [(cu["start"], cu["end"]) for cu in d["cues"].get(lang, [])]
+                want = [(s_, e_ if j + 1 < len(spans) else None) for j, (s_, e_) in enumerate(spans)]
+                if got != want:
+                    return False, {"language": lang, "written": got, "expected_starts_and_non_final_ends": want, "syncs": d["syncs"]}
+            return True, None
+        b.guard(("sami-two-languages", tuple(en_spans), tuple(fr_spans)), sami_two, sample={"en-US": en_spans, "fr-FR": fr_spans})
     # language options and an empty language next to the written one do not take cues away: every caption of the written
     # language keeps its timed cue
     for i in range(4 if not ctx.thorough else 20):
